@@ -248,6 +248,24 @@ def run_unrepresentable(ctx):
         except Exception:  # noqa: BLE001
             pass
         ctx.evaluations += 1
+    # exponents beyond the storage type handed to the constructors: an error, never the exponent modulo 2**32 (D56)
+    for e in (2 ** 32 - 1, 2 ** 32, 2 ** 32 + 5, 2 ** 33 + 7, 2 ** 40, 2 ** 62, 1114053, 2 ** 31):
+        for route, build in (("from_attributes", lambda e=e: numpoly.polynomial_from_attributes([[e]], [2], ("q0",))),
+                             ("dict", lambda e=e: numpoly.polynomial({(e,): 2})),
+                             ("from_attributes, two names", lambda e=e: numpoly.polynomial_from_attributes([[e, 1], [0, 1]], [2, 3])),
+                             ("int64 exponent array", lambda e=e: numpoly.polynomial_from_attributes(numpy.array([[e]], dtype="int64"), [2])),
+                             ("then times q0", lambda e=e: numpoly.polynomial_from_attributes([[e]], [2], ("q0",)) * numpoly.variable())):
+            case = {"kind": "overflow", "a": e, "b": 0, "op": "construct", "route": route}
+            ctx.evaluations += 1
+            ctx.count("construct-beyond-range")
+            try:
+                r = build()
+            except Exception:  # noqa: BLE001
+                continue
+            rows = [[int(x) for x in row] for row in r.exponents.tolist()]
+            want = e + (1 if route == "then times q0" else 0)
+            if not any(row[0] == want for row in rows):
+                ctx.fail(case, f"{route}: exponent {e} was stored as rows {rows} instead of raising (it is not representable)", ["overflow", "wrong", "construct"])
     # powers whose exponent leaves 32 bits must raise as well, never wrap (seeded change C20-12: a fast path that scales
     # the exponent row of a single-term base)
     for a, n in ((65536, 65536), (46341, 92682), (2 ** 20, 2 ** 12)):
